@@ -459,7 +459,9 @@ def x_eq(self, st, a, b):
         ob = st.obj(r)
         if ob.kind == "list" and ob.items is not None and isinstance(o, (tuple, list)):
             return False if isinstance(o, tuple) else vkey(list(ob.items)) == vkey(list(o))
-        if o is None or isinstance(o, (bool, int, str)):
+        if o is None or isinstance(o, (bool, int, str)) or (callable(o) and not isinstance(o, type)):
+            return False
+        if ob.kind == "closure":
             return False
         return Top("eq:obj", False)
     try:
@@ -541,6 +543,13 @@ def x_in(self, st, a, b, node):
             hook = self.stubs.get((o.clsname() or "") + ".__contains__")
             if hook is not None:
                 return hook(self, st, b, a, node)
+            if isinstance(o.cls, ClassInfo):
+                m = o.cls.lookup("__contains__")
+                if m is not None:
+                    outs = self.call_function(st.fork(), m, [a], {}, node, self_val=b)
+                    if len(outs) == 1 and outs[0][1] == "val" and isinstance(outs[0][2], bool):
+                        return outs[0][2]
+                    return Top("in:__contains__", False)
             return Top("in:obj", o.open)
     if isinstance(b, (tuple, frozenset, list, set)):
         if isinstance(a, Top):
@@ -682,6 +691,15 @@ def get_attr(self, st, base, attr, node, default=KeyError):
                     return [(st, "val", Top("classconst:" + attr))]
             if hook is not None:
                 return hook(self, st, [base, attr, default], {}, node)
+            ga = o.cls.lookup("__getattr__")
+            if ga is not None and not attr.startswith("__"):
+                res = []
+                for (s2, k2, v2) in self.call_function(st, ga, [attr], {}, node, self_val=base):
+                    if k2 == "raise" and default is not KeyError and v2.clsname() == "AttributeError":
+                        res.append((s2, "val", default))
+                    else:
+                        res.append((s2, k2, v2))
+                return res
         if (o.clsname() or "") + "." + attr in self.attr_stubs:
             return self.attr_stubs[(o.clsname() or "") + "." + attr](self, st, base, node)
         if (o.clsname() or "") + "." + attr in self.stubs:
